@@ -214,14 +214,48 @@ pub fn exec(root: &Root, op: &Op) -> Outcome {
     }
 }
 
+static STRACE_MARK: std::sync::atomic::AtomicU64 = std::sync::atomic::AtomicU64::new(0);
+
+fn strace_mark_syscall(kind: &str, n: u64) {
+    let s = CString::new(format!("VERIF-MARK-{kind}-{n}")).unwrap();
+    // a system call that cannot succeed and that nothing else makes: visible to strace only
+    unsafe { libc::syscall(libc::SYS_faccessat, -1i32, s.as_ptr(), 0i32) };
+}
+
+/// When `VERIF_STRACE_MARK=<file>` is set, every recorded window is bracketed by two marker
+/// system calls and its transcript is appended to `<file>`, so that `tools/strace_tie.py` can
+/// compare what the recorder saw with what the kernel saw (strace) for the same window.
+fn strace_mark_begin() -> Option<u64> {
+    std::env::var_os("VERIF_STRACE_MARK")?;
+    let n = STRACE_MARK.fetch_add(1, std::sync::atomic::Ordering::SeqCst);
+    strace_mark_syscall("BEGIN", n);
+    Some(n)
+}
+
+fn strace_mark_end(mark: Option<u64>, log: &[(Call, Resp)]) {
+    let Some(n) = mark else { return };
+    strace_mark_syscall("END", n);
+    if let Some(p) = std::env::var_os("VERIF_STRACE_MARK") {
+        use std::io::Write;
+        let mut s = format!("mark {n}\n");
+        s.push_str(&crate::fmt::transcript(log));
+        s.push_str("endmark\n");
+        if let Ok(mut f) = std::fs::OpenOptions::new().create(true).append(true).open(p) {
+            let _ = f.write_all(s.as_bytes());
+        }
+    }
+}
+
 /// Run `f` with the recorder installed; returns the outcome and the transcript.
 pub fn recorded<T>(
     interposer: Option<Box<dyn Interposer>>,
     f: impl FnOnce() -> T,
 ) -> (Result<T, String>, Vec<(Call, Resp)>) {
+    let mark = strace_mark_begin();
     verif::start(interposer);
     let r = catch_unwind(AssertUnwindSafe(f));
     let log = verif::finish();
+    strace_mark_end(mark, &log);
     let r = r.map_err(|e| {
         if let Some(s) = e.downcast_ref::<&str>() {
             s.to_string()
@@ -252,6 +286,10 @@ pub fn run_recorded(
 /// Open descriptors of the process: fd → (dev, ino, cloexec).
 pub fn fd_table() -> Vec<(i32, u64, u64, bool)> {
     let mut v = Vec::new();
+    if std::env::var_os("VERIF_STRACE_MARK").is_some() {
+        // under strace the 2048 probes below dominate the run time; the strace tie does not use them
+        return v;
+    }
     for fd in 0..2048 {
         let fl = unsafe { libc::syscall(libc::SYS_fcntl, fd, libc::F_GETFD) };
         if fl >= 0 {
